@@ -70,7 +70,7 @@ def content_table(fps_sets, fill, tier):
     """(layout id, arrangement label, FileSpec)"""
     for si, fps in enumerate(fps_sets):
         ids = "+".join(fp.pid for fp in fps)
-        arrs = ["own-lines", "edges", "single-line"] + ([("one-line", tuple(range(len(fps)))), ("one-line", tuple(reversed(range(len(fps)))))] if len(fps) > 1 and not any(f.anchor_l or f.anchor_r for f in fps) else [])
+        arrs = ["own-lines"] + (["edges", "single-line"] if len(fps) == 1 else []) + ([("one-line", tuple(range(len(fps)))), ("one-line", tuple(reversed(range(len(fps)))))] if len(fps) > 1 and not any(f.anchor_l or f.anchor_r for f in fps) else [])
         for arr in arrs:
             for regime in REGIMES:
                 for final_nl in (True, False):
